@@ -186,6 +186,9 @@ func (o vshOp) String() string {
 type vshCase struct {
 	Cfg  vshCfg  `json:"cfg"`
 	Hist []vshOp `json:"history"`
+	// ProbeEvery: every local operation is followed by a CreateOffer on the same side whose result is
+	// recorded (role "probe") and discarded ("CreateOffer after every operation", C12).
+	ProbeEvery bool `json:"probe_every,omitempty"`
 }
 
 func (cs vshCase) String() string {
@@ -194,7 +197,12 @@ func (cs vshCase) String() string {
 		p = append(p, o.String())
 	}
 
-	return "[" + cs.Cfg.String() + "] " + strings.Join(p, " ; ")
+	pe := ""
+	if cs.ProbeEvery {
+		pe = " (CreateOffer after every operation)"
+	}
+
+	return "[" + cs.Cfg.String() + "] " + strings.Join(p, " ; ") + pe
 }
 
 func vshKind(s string) RTPCodecType {
@@ -850,7 +858,15 @@ func vshReplay(tb testing.TB, cs vshCase, finalProbe bool) (run *vshRun) {
 
 			continue
 		}
-		run.Status = append(run.Status, rp.apply(op))
+		st := rp.apply(op)
+		run.Status = append(run.Status, st)
+		if cs.ProbeEvery && !run.Dead && !strings.HasPrefix(st, "na") {
+			switch op.Op {
+			case "offer", "neg", "sro", "negs":
+			default:
+				_, _, _ = rp.create(rp.side(op.Side), "offer", "probe")
+			}
+		}
 	}
 	run.Canon = rp.canon()
 	for n, s := range rp.sides {
@@ -946,6 +962,7 @@ func (rp *vshReplayer) canon() string {
 // ---- exploration ------------------------------------------------------------------------------
 
 type vshExplorer struct {
+	probeEvery bool
 	tb     testing.TB
 	c      *vkit.Check
 	oracle func(cs vshCase, r *vshRun) []vshFinding
@@ -1013,8 +1030,8 @@ func vshApplicable(op vshOp, parent vshLight) bool {
 // first; with merge, histories reaching an already visited canonical state are not extended.
 // It returns the number of replays per level and whether the depth was completed.
 func (e *vshExplorer) bfs(cfg vshCfg, alphabet []vshOp, depth int, merge bool) (levels []int, complete bool) {
-	root := e.one(vshCase{Cfg: cfg})
-	e.report(vshCase{Cfg: cfg}, root)
+	root := e.one(vshCase{Cfg: cfg, ProbeEvery: e.probeEvery})
+	e.report(vshCase{Cfg: cfg, ProbeEvery: e.probeEvery}, root)
 	e.c.State(cfg.String() + "|" + root.canon)
 	seen := map[string]bool{root.canon: true}
 	type node struct {
@@ -1032,7 +1049,7 @@ func (e *vshExplorer) bfs(cfg vshCfg, alphabet []vshOp, depth int, merge bool) (
 				if !vshApplicable(op, nd.l) {
 					continue
 				}
-				jobs = append(jobs, vshCase{Cfg: cfg, Hist: append(append([]vshOp{}, nd.hist...), op)})
+				jobs = append(jobs, vshCase{Cfg: cfg, Hist: append(append([]vshOp{}, nd.hist...), op), ProbeEvery: e.probeEvery})
 			}
 		}
 		res := make([]vshLight, len(jobs))
@@ -1215,6 +1232,81 @@ func vshCat(parts ...[]vshOp) []vshOp {
 	var out []vshOp
 	for _, p := range parts {
 		out = append(out, p...)
+	}
+
+	return out
+}
+
+// vshSynCases is the product explored against the synthetic peer (C06, C09): pre-operations, a
+// synthetic remote offer, local additions; the final CreateOffer probe of the replay is the local
+// re-offer. Thorough adds 3-section offers and a second round (X re-offers and the synthetic peer
+// accepts, or the synthetic peer re-offers with one more section) followed by more additions.
+// withUnknown adds offers in which one section has a codec pion does not know (rejected section).
+func vshSynCases(cfgs []vshCfg, quick, withUnknown bool) []vshCase { //nolint:gocognit,cyclop
+	opA := vshOp{Side: "X", Op: "addk", Kind: "audio", Dir: "sendrecv"}
+	opV := vshOp{Side: "X", Op: "addk", Kind: "video", Dir: "recvonly"}
+	opD := vshOp{Side: "X", Op: "dc"}
+	opS := vshOp{Side: "X", Op: "stop", Idx: 0}
+	opN := vshOp{Side: "X", Op: "negs"}
+	none := [][]vshOp{{}}
+	var out []vshCase
+	for _, cfg := range cfgs {
+		for n := 1; n <= 3; n++ {
+			if n == 3 && (quick || cfg.AlwaysDC != cfg.MediaFP) {
+				continue
+			}
+			for _, secs := range vshSynOffers(n, withUnknown && n <= 2) {
+				unknown := false
+				for _, s := range secs {
+					unknown = unknown || s.Codec != ""
+				}
+				for _, bundle := range []string{"", "none", "first"} {
+					if n == 1 && bundle == "first" {
+						continue
+					}
+					pres, posts := none, [][]vshOp{{opD}}
+					switch {
+					case n == 1 && !unknown && bundle == "" && quick:
+						pres = [][]vshOp{{}, {opA}}
+						posts = vshSeqs([]vshOp{opA, opV, opD}, 0, 2)
+					case n == 1 && !unknown && bundle == "":
+						pres = [][]vshOp{{}, {opA}, {opV}, {opD}}
+						posts = vshSeqs([]vshOp{opA, opV, opD, opS}, 0, 2)
+					case n == 1:
+						posts = [][]vshOp{{}, {opD}, {opA, opD}}
+					case n == 2 && !unknown && bundle == "" && quick:
+						posts = [][]vshOp{{}, {opD}, {opA}, {opA, opD}}
+					case n == 2 && !unknown && bundle == "":
+						pres = [][]vshOp{{}, {opA}}
+						posts = vshSeqs([]vshOp{opA, opV, opD, opS}, 0, 2)
+					case n == 2 && unknown && bundle != "":
+						continue
+					case n == 2 && !quick:
+						posts = [][]vshOp{{}, {opD}, {opA, opD}}
+					case n == 3 && bundle == "":
+						posts = [][]vshOp{{opD}, {opA, opD}}
+					}
+					sro := vshOp{Side: "X", Op: "sro", Secs: secs, Bundle: bundle}
+					for _, pre := range pres {
+						for _, post := range posts {
+							out = append(out, vshCase{Cfg: cfg, Hist: vshCat(pre, []vshOp{sro}, post)})
+						}
+					}
+					if quick || n == 3 || unknown || bundle != "" {
+						continue
+					}
+					for _, post := range [][]vshOp{{}, {opD}, {opA}} {
+						for _, post2 := range [][]vshOp{{opD}, {opA}, {opA, opD}, {opV, opA}} {
+							out = append(out, vshCase{Cfg: cfg, Hist: vshCat([]vshOp{sro}, post, []vshOp{opN}, post2)})
+						}
+						for _, mid := range []string{"1", "7", "a"} {
+							sro2 := vshOp{Side: "X", Op: "sro", Secs: []vshSynSec{{Media: "video", Mid: mid}}}
+							out = append(out, vshCase{Cfg: cfg, Hist: vshCat([]vshOp{sro}, post, []vshOp{sro2, opA, opD})})
+						}
+					}
+				}
+			}
+		}
 	}
 
 	return out
